@@ -1,1 +1,6 @@
-// stub
+// stub: diagnostic strings are not part of any property; format(...) yields an opaque message object
+#ifndef VSTUB_FMT_HPP
+#define VSTUB_FMT_HPP
+struct vstub_msg {};
+#define format(...) (::vstub_msg())
+#endif
